@@ -40,6 +40,7 @@ import numpy as np
 
 from basictdf.tdfBlock import Block, BlockType, Sized, BuildWriteable
 from basictdf.tdfTypes import BTSString, TdfType, f32, i16, i32
+from basictdf.tdfUtils import free_channel
 
 SegmentData = TdfType(np.dtype([("startFrame", "<i4"), ("nFrames", "<i4")]))
 
@@ -231,16 +232,7 @@ class EMG(Block):
                 )
             )
 
-        if channel is None:
-            if len(self._emgMap) == 0:
-                next_channel = 0
-            else:
-                next_channel = max(self._emgMap) + 1
-            self._emgMap.append(next_channel)
-        else:
-            if channel in self._emgMap:
-                raise ValueError(f"Channel {channel} already in use")
-            self._emgMap.append(channel)
+        self._emgMap.append(free_channel(self._emgMap, i16.btype, channel))
         self._signals.append(signal)
 
     def removeSignal(self, label: str) -> None:
